@@ -310,7 +310,7 @@ def sample(ctx, budget=1.0, hint=None, broken=None):
                  repr((xs.min(), xs.max(), ys.min(), ys.max())), rep)
 
     for it in range(int(ctx.n(250, 3000) * budget)):
-        kind = r.choice(['line', 'quad', 'cubic', 'cubic', 'cubic-elevated', 'cubic-near-elevated', 'cubic-monotone', 'arc', 'arc', 'arc-large'])
+        kind = r.choice(['line', 'quad', 'cubic', 'cubic', 'cubic-elevated', 'cubic-near-elevated', 'cubic-near-flat-end', 'cubic-monotone', 'arc', 'arc', 'arc-large'])
         scale = r.choice([1e-2, 1.0, 1.0, 1e3])
         if kind in ('line', 'quad', 'cubic'):
             ps, scale = _rand_pts(r, {'line': 2, 'quad': 3, 'cubic': 4}[kind])
@@ -341,6 +341,23 @@ def sample(ctx, budget=1.0, hint=None, broken=None):
             seg = P.CubicBezier(*[complex(a, b) for a, b in zip(x, y)])
             if seg.start == seg.control1 == seg.control2 == seg.end:
                 continue
+        elif kind == 'cubic-near-flat-end':
+            # control2 and end (or start and control1) agree in one coordinate only up to rounding - 0.1 + 0.2 against 0.3, 3 * 1.1 against
+            # 3.3, a value and itself after a 90 degree turn - while that coordinate is not monotone
+            pairs_ = [(0.1 + 0.2, 0.3), (3 * 1.1, 3.3), (0.7 + 0.1, 0.8), (1.1 * 1.1, 1.21), (0.3, 0.1 + 0.2)]
+            u_, v_ = r.choice(pairs_)
+            s_ = r.choice([1.0, -1.0, 10.0])
+            u_, v_ = u_ * s_, v_ * s_
+            lo_ = min(u_, v_) - abs(u_) * r.uniform(0.5, 2) - 0.2
+            a0_ = u_ + r.choice([0.0, abs(u_) * 0.5, -abs(u_) * 0.3])
+            coord = [a0_, lo_ if r.random() < 0.5 else u_ + abs(u_) * 2 + 0.5, u_, v_]      # ..., control2 = u, end = v ~ u
+            other = [r.uniform(-1, 1) for _ in range(4)]
+            if r.random() < 0.5:
+                coord = coord[::-1]; other = other[::-1]
+            x, y = (coord, other) if r.random() < 0.5 else (other, coord)
+            seg = P.CubicBezier(*[complex(a, b) for a, b in zip(x, y)])
+            if r.random() < 0.3:
+                seg = seg.rotated(r.choice([90, -90]), origin=0j)
         elif kind == 'cubic-monotone':
             x = sorted(r.uniform(-5, 5) for _ in range(4)); y = sorted(r.uniform(-5, 5) for _ in range(4))
             seg = P.CubicBezier(*[complex(a, b) for a, b in zip(x, y)])
